@@ -1204,6 +1204,7 @@ namespace awkward {
   void
   NumpyArray::check_for_iteration() const {
     if (identities_.get() != nullptr  &&
+        !shape_.empty()  &&
         identities_.get()->length() < shape_[0]) {
       util::handle_error(
         failure("len(identities) < len(array)",
